@@ -137,6 +137,11 @@ func (d *D) Of(v ssa.Value) string {
 		}
 		return "closure:" + ShortFn(fn)
 	case *ssa.Slice:
+		if a, ok := x.X.(*ssa.Alloc); ok {
+			if el := d.arrayLit(a); el != "" {
+				return el
+			}
+		}
 		return d.Of(x.X) + "[:]"
 	case *ssa.MakeSlice:
 		return "make(" + typeShort(x.Type()) + ")"
@@ -508,4 +513,38 @@ func (p *Prog) ConstName(c *ssa.Const) string {
 		}
 	}
 	return p.constNames[types.TypeString(named, nil)+"="+c.Value.ExactString()]
+}
+
+// arrayLit renders the backing array of a variadic argument list / slice
+// literal ([N]T alloc filled by constant-index stores) as [v0,v1,...].
+func (d *D) arrayLit(a *ssa.Alloc) string {
+	pt, ok := a.Type().Underlying().(*types.Pointer)
+	if !ok {
+		return ""
+	}
+	arr, ok := pt.Elem().Underlying().(*types.Array)
+	if !ok || arr.Len() > 16 {
+		return ""
+	}
+	elems := make([]string, arr.Len())
+	for i := range elems {
+		elems[i] = "_"
+	}
+	for _, r := range *a.Referrers() {
+		ia, ok := r.(*ssa.IndexAddr)
+		if !ok {
+			continue
+		}
+		c, ok := ia.Index.(*ssa.Const)
+		if !ok || c.Value == nil {
+			return ""
+		}
+		idx, _ := constant.Int64Val(c.Value)
+		for _, rr := range *ia.Referrers() {
+			if st, ok := rr.(*ssa.Store); ok && st.Addr == ia && idx >= 0 && int(idx) < len(elems) {
+				elems[idx] = d.Of(st.Val)
+			}
+		}
+	}
+	return "[" + strings.Join(elems, ",") + "]"
 }
